@@ -107,8 +107,8 @@ CHECKS = {
         note=TRUST + "; literal-only edits of literals the default policy abstracts are excluded (C02 requires their fingerprints to be equal)"),
     "C05": dict(
         level="model_checking", ref="3/C05",
-        technique="TLA+ design spec Match (invariant IndexedFound: the signature IndexFunction derives from a topology matches it with confidence exactly 1 in both modes of both back ends at every threshold; negative configuration without the positive tolerance) model-checked by TLC; TLA+ contract IndexScanContract (state machine: index events add signatures, every scan of a cosmetic variant must alert for every indexed origin with confidence 1.0) validated by TLC over recorded runs of the real `sfw index` / `sfw scan`",
-        text="TLC proves IndexedFound over the abstract topology/signature/configuration space of the C08 model; ~300 generated functions (all gogen shapes: loops, calls into os/net/time/strings/fmt, defer/go/select/panic, closures, methods; MiniGo programs incl. recursion; short/long/multi-byte string literals at every alignment) are indexed by the real CLI into a PebbleDB and a JSON database; 5 (thorough 7) variants (identifiers renamed on the syntax tree by go/ast, declarations reordered, layout and comments changed) are scanned in full mode at thresholds 0.3/0.75/0.9/1.0 and in exact mode on both back ends; TLC validates the whole history.",
+        technique="TLA+ design spec Match (invariant IndexedFound: the signature IndexFunction derives from a topology matches it with confidence exactly 1 in both modes of both back ends at every threshold; negative configuration without the positive tolerance) model-checked by TLC; TLA+ contract IndexScanContract (state machine: index events add signatures, every scan of a cosmetic variant must alert for every indexed origin with confidence 1.0; migrate copies the signature set and reports its size; stats reports the size) validated by TLC over recorded CLI sessions of the real `sfw index` / `scan` / `migrate` / `stats`",
+        text="TLC proves IndexedFound over the abstract topology/signature/configuration space of the C08 model; ~300 generated functions (all gogen shapes: loops, calls into os/net/time/strings/fmt, defer/go/select/panic, closures, methods; MiniGo programs incl. recursion; short/long/multi-byte string literals at every alignment) are indexed by the real CLI into a PebbleDB and a JSON database; 5 (thorough 7) variants (identifiers renamed on the syntax tree by go/ast, declarations reordered, layout and comments changed) are scanned in full mode at thresholds 0.3/0.75/0.9/1.0 and in exact mode on both back ends; the session continues with a second `sfw index` of another package into both databases, `sfw migrate` of the JSON database into a fresh PebbleDB, `sfw stats` of all three and scans of the grown and the migrated databases; TLC validates the whole history.",
         note=TRUST + "; a function's identifiers = its own name (unless other functions refer to it), parameters, results, locals, labels; exact mode: any signature of the same topology hash with confidence 1.0 counts"),
 }
 
